@@ -6,8 +6,11 @@ import (
 	"encoding/json"
 	"flag"
 	"fmt"
+	"io"
 	"math/rand"
 	"os"
+	"path/filepath"
+	"sort"
 	"strings"
 
 	"go.etcd.io/raft/v3"
@@ -44,6 +47,8 @@ func main() {
 		cmdConfChange(os.Args[2:])
 	case "logstore":
 		cmdLogStore(os.Args[2:])
+	case "simsched":
+		cmdSimSched(os.Args[2:])
 	default:
 		fmt.Fprintln(os.Stderr, "unknown command", os.Args[1])
 		os.Exit(2)
@@ -262,24 +267,53 @@ func writeSched(name string, c *Cluster) {
 func cmdReplay(args []string) {
 	fs := flag.NewFlagSet("replay", flag.ExitOnError)
 	sched := fs.String("sched", "", "schedule json")
+	scheddir := fs.String("scheddir", "", "directory of schedule json files, all replayed into one output (trace ids 1..n)")
 	out := fs.String("out", "replay.ndjson", "output ndjson")
 	tr := fs.Int("tr", 1, "trace id")
 	stabilize := fs.Int("stabilize", 0, "append fault-free rounds")
 	settle := fs.Int("settle", 0, "append this many calm (fault-free, logged) driver steps so that latent damage surfaces")
 	_ = fs.Parse(args)
-	b, err := os.ReadFile(*sched)
-	if err != nil {
-		fmt.Fprintln(os.Stderr, err)
-		os.Exit(2)
-	}
-	var sf SchedFile
-	if err := json.Unmarshal(b, &sf); err != nil {
-		fmt.Fprintln(os.Stderr, err)
-		os.Exit(2)
+	var files []string
+	if *scheddir != "" {
+		files, _ = filepath.Glob(filepath.Join(*scheddir, "*.json"))
+		sort.Strings(files)
+	} else {
+		files = []string{*sched}
 	}
 	f, _ := os.Create(*out)
 	w := bufio.NewWriter(f)
-	c := NewCluster(sf.Cluster, w, *tr)
+	events, skipped, traces := 0, 0, 0
+	panics := []string{}
+	skippedIn := []string{}
+	for k, file := range files {
+		b, err := os.ReadFile(file)
+		if err != nil {
+			fmt.Fprintln(os.Stderr, err)
+			os.Exit(2)
+		}
+		var sf SchedFile
+		if err := json.Unmarshal(b, &sf); err != nil {
+			fmt.Fprintln(os.Stderr, file, err)
+			os.Exit(2)
+		}
+		e, sk, ps := replayOne(sf, w, *tr+k, *settle, *stabilize)
+		events += e
+		skipped += sk
+		traces++
+		panics = append(panics, ps...)
+		if sk > 0 {
+			skippedIn = append(skippedIn, filepath.Base(file))
+		}
+	}
+	w.Flush()
+	f.Close()
+	sum := map[string]interface{}{"events": events, "skipped": skipped, "panics": panics, "traces": traces, "skipped_in": skippedIn}
+	jb, _ := json.Marshal(sum)
+	fmt.Println(string(jb))
+}
+
+func replayOne(sf SchedFile, w io.Writer, tr, settle, stabilize int) (int, int, []string) {
+	c := NewCluster(sf.Cluster, w, tr)
 	k := 0
 	c.rtoDraw = func(id uint64, et int) int {
 		if k < len(sf.RTO) {
@@ -314,20 +348,16 @@ func cmdReplay(args []string) {
 			}
 		}
 	}
-	if *settle > 0 {
+	if settle > 0 {
 		d := NewDriver(c, rand.New(rand.NewSource(1)), profiles["base"])
 		c.rtoDraw = func(id uint64, et int) int { return et + int(id-1)%et }
 		p := calm
 		p.Restart = 10
-		d.with(p, *settle)
+		d.with(p, settle)
 	}
-	if *stabilize > 0 {
+	if stabilize > 0 {
 		d := NewDriver(c, rand.New(rand.NewSource(1)), profiles["base"])
-		d.Stabilize(*stabilize)
+		d.Stabilize(stabilize)
 	}
-	w.Flush()
-	f.Close()
-	sum := map[string]interface{}{"events": c.Events, "skipped": skipped, "panics": c.Panics}
-	jb, _ := json.Marshal(sum)
-	fmt.Println(string(jb))
+	return c.Events, skipped, c.Panics
 }
